@@ -10,6 +10,7 @@ import (
 	"io"
 	"math/rand"
 	"os"
+	"runtime"
 	"strconv"
 	"strings"
 
@@ -84,6 +85,13 @@ func genPlainStream(r *rand.Rand) []byte {
 					if strings.HasPrefix(fields[j][1], "-") && r.Intn(2) == 0 {
 						fields[j][1] = "0"
 					}
+				}
+			}
+		}
+		if r.Intn(25) == 0 { // hostile declared length, far beyond the data
+			for j := range fields {
+				if fields[j][0] == "Content-Length" {
+					fields[j][1] = pick(r, []string{"9223372036854775807", "4611686018427387904", "268435456", "99999999999"})
 				}
 			}
 		}
@@ -228,6 +236,8 @@ func runUnm(toks []string) (string, string) {
 	if tooManyHangs() {
 		return "SKIPPED", "-"
 	}
+	var ms0, ms1 runtime.MemStats
+	runtime.ReadMemStats(&ms0)
 	done := make(chan string, 1)
 	go func() {
 		var obs string
@@ -238,6 +248,10 @@ func runUnm(toks []string) (string, string) {
 	}()
 	select {
 	case obs := <-done:
+		runtime.ReadMemStats(&ms1)
+		if alloc := ms1.TotalAlloc - ms0.TotalAlloc; alloc > 48<<20+uint64(200*len(data)) && !strings.HasPrefix(obs, "PANIC") {
+			return obs, fmt.Sprintf("FAIL:memory:reading a %d byte stream allocated %d bytes", len(data), alloc)
+		}
 		if strings.HasPrefix(obs, "PANIC") {
 			return "PANIC", "FAIL:panic:reader panicked: " + obs
 		}
